@@ -349,5 +349,69 @@ impl L {
 }
 } // mod receiver
 
+// ================================================================ the credit wait of a sending link: the arm that sees the peer's detach (link/sender_link.rs get_delivery_tag_or_detached, R33)
+pub mod creditwait {
+use super::*;
+/// the future that resolves with the next frame on the link's channel (already resolved: `frame`)
+pub struct DetachedFutS {}
+pub type L = LinkS<SndM>;
+//@@ type file=fe2o3-amqp/src/link/error.rs kind=enum name=LinkStateError
+//@@ end
+impl LinkStateError {
+//@@ fn file=fe2o3-amqp/src/link/error.rs impl=`impl From<DetachError> for LinkStateError` name=from as=from_detach id=LinkStateError::from<DetachError>
+//@@ spec
+    ensures (match value {
+        DetachError::IllegalState => r is IllegalState,
+        DetachError::SessionStopped(x) => r == LinkStateError::SessionStopped(x),
+        DetachError::RemoteDetachedWithError(e) => r == LinkStateError::RemoteDetachedWithError(e),
+        DetachError::ClosedByRemote => r is RemoteClosed,
+        DetachError::DetachedByRemote => r is RemoteDetached,
+        DetachError::RemoteClosedWithError(e) => r == LinkStateError::RemoteClosedWithError(e),
+    }),       // [C14.link.detach-error-keeps-who-and-why] [C13.link.detach-error-keeps-who-and-why] a detach error on its way into a send / receive error keeps who stopped and carries the peer's error condition and the session's stop reason unchanged
+//@@ end
+}
+pub trait ErrIntoL: Sized { fn err_into(self) -> LinkStateError; }
+impl ErrInto<LinkStateError> for DetachError { open spec fn conv(self) -> LinkStateError { lse_of(self) } fn err_into(self) -> (r: LinkStateError) { LinkStateError::from_detach(self) } }
+impl ErrInto<LinkStateError> for LinkStateError { open spec fn conv(self) -> LinkStateError { self } fn err_into(self) -> (r: LinkStateError) { let e = self; assert(e == <LinkStateError as ErrInto<LinkStateError>>::conv(self)); e } }
+pub open spec fn lse_of(value: DetachError) -> LinkStateError {
+    match value {
+        DetachError::IllegalState => LinkStateError::IllegalState,
+        DetachError::SessionStopped(x) => LinkStateError::SessionStopped(x),
+        DetachError::RemoteDetachedWithError(e) => LinkStateError::RemoteDetachedWithError(e),
+        DetachError::ClosedByRemote => LinkStateError::RemoteClosed,
+        DetachError::DetachedByRemote => LinkStateError::RemoteDetached,
+        DetachError::RemoteClosedWithError(e) => LinkStateError::RemoteClosedWithError(e),
+    }
+}
+impl L {
+//@@ fn file=fe2o3-amqp/src/link/sender_link.rs impl=`~impl<T>SenderLink<T>` name=get_delivery_tag_or_detached as=credit_wait_arm_detached id=SenderLink::get_delivery_tag_or_detached dropuses
+//@@ selectarm `frame = detached`
+//@@ addparam frame: Option<LinkFrame>
+//@@ generics
+//@@ nowhere
+//@@ param writer : &Tx
+//@@ param detached : DetachedFutS
+//@@ subst `self.send_detach(writer, __E1, __E2)?;` => `match self.send_detach(writer, __E1, __E2) { Ok(__v) => __v, Err(__e) => return (Err(LinkStateError::from_detach(__e)), true) };` rule=R27,R33
+//@@ ret (Result<[u8; 4], LinkStateError>, bool)
+//@@ subst `LinkStateError::from(err)` => `LinkStateError::from_detach(err)` rule=R16
+//@@ spec
+    ensures
+        r.0 is Err,       // (the arm that sees something on the link's channel never hands out a delivery tag: no credit is consumed here)
+        final(self).session_stop_reason == old(self).session_stop_reason,
+        (frame is Some && frame->Some_0 is Detach) ==> ({
+            let d = frame->Some_0->Detach_0;
+            // [C13.sender.peer-detach-answered-in-kind-while-waiting-for-credit] a sender that is waiting for link credit when the peer's detach arrives answers it at once and in kind (closing with closing), without an error of its own, and only then takes the detach up; the send that was waiting fails with "closed / detached by remote" -- or with the peer's error
+            &&& final(self).ops@.len() >= old(self).ops@.len() ==> (final(self).ops@.len() > old(self).ops@.len() ==> final(self).ops@[old(self).ops@.len() as int] == Op::SendDetach(d.closed, None::<AmqpError>))
+            &&& final(self).ops@.len() <= old(self).ops@.len() + 2
+            &&& final(self).ops@.len() == old(self).ops@.len() + 2 ==> final(self).ops@[old(self).ops@.len() as int + 1] == Op::OnDetach(d)
+        }),
+        (frame is Some && !(frame->Some_0 is Detach)) ==> r.0->Err_0 is ExpectImmediateDetach && final(self).ops == old(self).ops,       // [C15.sender.unexpected-frame-while-waiting-for-credit] any other frame on a sender's channel is an error of the link, nothing is written, no panic
+        frame is None ==> final(self).ops == old(self).ops && (match old(self).session_stop_reason.v {
+            Some(reason) => r.0->Err_0 == LinkStateError::SessionStopped(reason),
+            None => r.0->Err_0 is ExpectImmediateDetach }),       // [C14.link.closed-channel-reports-stop-reason] a send waiting for credit when the session stops fails at once with the reason the session published
+//@@ end
+}
+} // mod creditwait
+
 } // verus!
 fn main() {}
